@@ -24,7 +24,7 @@ DIRS = [('SKIP', True, None), ('SKIP', False, None),
         ('IGNORE_WANT', True, None)]
 # one directive listing several conditions (met ones before, between and after unmet ones)
 MULTI_DIRS = [('REQUIRES', sign, ', '.join(args)) for sign in (True, False)
-              for args in ((MET, UA), (UA, MET), (MET, UA, UB), (UA, MET, UB), (UB, UA), (MET, MET, UB), ('module:sys', UA))]
+              for args in ((MET, UA), (UA, MET), (MET, UA, UB), (UA, MET, UB), (UB, UA), (MET, MET, UB), ('module:sys', UA), ('module:time',), ('module:itertools', 'module:sys'))]
 PRELUDE = gendoc.PRELUDE + '''
 def tr(k):
     def deco(f):
@@ -43,8 +43,12 @@ def dir_text(d):
 
 
 # ---- python transcription of Spec/Scoping.v ---------------------------------
+# conditions that hold in the harness process: a module with a file, modules compiled into the interpreter (no file)
+MET_SET = {MET, 'module:sys', 'module:time', 'module:itertools'}
+
+
 def met(arg):
-    return arg == MET
+    return arg in MET_SET
 
 
 def a_apply(state, d):
